@@ -149,13 +149,6 @@ pub fn run(dir: &Path, out: Box<dyn Write>) -> Value {
                     let got = guarded(|| env.all(vv, x));
                     ctx.report(case.clone(), idx(&q["u"]) - 1, got);
                     ctx.operands_unchanged(&[a], &case);
-                    // exists_impl, one variable at a time, folded the other way round
-                    if vs.len() == 1 {
-                        let case = json!({"op": "exists_impl", "a": a + 1, "vs": q["vs"]});
-                        let (x, env) = (Rc::clone(&ctx.real[a]), &ctx.env);
-                        let got = guarded(|| env.exists_impl(&vs[0], x));
-                        ctx.report(case, idx(&q["e"]) - 1, got);
-                    }
                 }
             }
             "C05c" => {
